@@ -243,6 +243,8 @@ func nonNegEdges(fn *ssa.Function, x ssa.Value) []Edge {
 			return false, true
 		case hasSuffixAny(n, ".IsPositive") && samePath(a[0], x):
 			return true, true
+		case hasSuffixAny(n, ".IsZero") && samePath(a[0], x):
+			return true, true
 		case hasSuffixAny(n, ".GT", ".GTE") && len(a) == 2 && samePath(a[0], x) && isZeroIntValue(a[1]):
 			return true, true
 		case hasSuffixAny(n, ".LT") && len(a) == 2 && samePath(a[0], x) && isZeroIntValue(a[1]):
